@@ -31,13 +31,14 @@ def native_states(run, n, gen_key, computer, gap, states):
         for j in valid:
             rew[j] = env.step(j)[1]
             env.unstep(j)
-        snap = (env.incomplete_game._values.copy(), env.steps_taken, env.state.copy(), env.reward)
+        held = env.incomplete_game          # what a caller holding the game object sees
+        snap = (held._values.copy(), env.steps_taken, env.state.copy(), env.reward)
         for name in SOLVERS:
             evals += 1
             s = solvers.SOLVERS[name](inst)
             a = s.next_step(env)
-            same = np.array_equal(snap[0], env.incomplete_game._values) and snap[1] == env.steps_taken and np.array_equal(snap[2], env.state) \
-                and snap[3] == env.reward
+            same = env.incomplete_game is held and np.array_equal(snap[0], held._values) and snap[1] == env.steps_taken \
+                and np.array_equal(snap[2], env.state) and snap[3] == env.reward
             ok = a in valid and same
             if name == "greedy":
                 ok = ok and rew[a] == max(rew.values()) and all(rew[j] < rew[a] for j in valid if j < a)
